@@ -19,6 +19,7 @@ type CBytes struct {
 type CComp struct {
 	Prefix string
 	Keys   []*Term
+	Old    bool // taken under old(...): components are read from the entry state
 }
 type CRecs struct {
 	Recs  []Rec
@@ -264,7 +265,11 @@ func (c *EvalCtx) resolve(cc CComp) Value {
 	if comp == nil || len(cc.Keys) != len(comp.KeySorts) {
 		return cc
 	}
-	t := readComp(c.ex.mode, c.state(), cc.Prefix, cc.Keys)
+	st := c.state()
+	if cc.Old {
+		st = c.pre
+	}
+	t := readComp(c.ex.mode, st, cc.Prefix, cc.Keys)
 	return wrapSort(t)
 }
 
@@ -290,7 +295,7 @@ func (c *EvalCtx) ident(name string) Value {
 	}
 	switch name {
 	case "st":
-		return CComp{}
+		return CComp{Old: c.old}
 	case "events":
 		st := c.post
 		return CRecs{Recs: st.events[c.evBase:], Taint: st.evTaint}
@@ -356,7 +361,7 @@ func (c *EvalCtx) field(base Value, name string) Value {
 		if x.Prefix != "" {
 			p = x.Prefix + "." + name
 		}
-		return c.resolveMaybe(CComp{Prefix: p, Keys: x.Keys})
+		return c.resolveMaybe(CComp{Prefix: p, Keys: x.Keys, Old: x.Old})
 	case VPtr:
 		v := c.ex.load(c.state(), x, nil)
 		return c.field(v, name)
@@ -419,7 +424,7 @@ func (c *EvalCtx) index(base, idx Value) Value {
 		} else {
 			kt = c.asBV(idx, bvWidth(ks))
 		}
-		return c.resolve(CComp{Prefix: x.Prefix, Keys: append(append([]*Term(nil), x.Keys...), kt)})
+		return c.resolve(CComp{Prefix: x.Prefix, Keys: append(append([]*Term(nil), x.Keys...), kt), Old: x.Old})
 	case VStr, CBytes:
 		i := c.asBV(idx, 64)
 		return VBV{Select(Barr(bytesTerm(x)), i), false}
@@ -698,6 +703,9 @@ func (c *EvalCtx) litEq(a, b CLit) *Term {
 	}
 	var conj []*Term
 	for n, av := range a.Fields {
+		if strings.HasPrefix(n, "$") {
+			continue
+		}
 		bv, ok := b.Fields[n]
 		if !ok {
 			fail("record %s: field %s missing on one side", a.Name, n)
@@ -705,6 +713,9 @@ func (c *EvalCtx) litEq(a, b CLit) *Term {
 		conj = append(conj, c.eq(av, bv))
 	}
 	for n := range b.Fields {
+		if strings.HasPrefix(n, "$") {
+			continue
+		}
 		if _, ok := a.Fields[n]; !ok {
 			fail("record %s: field %s missing on one side", a.Name, n)
 		}
@@ -844,10 +855,16 @@ func (c *EvalCtx) call(e *Expr) Value {
 			arr = storeNZ(arr, uint64(12+i), by)
 		}
 		return VStr{MkBytes(arr, BV(64, 32))}
-	case "lower", "keccak", "hexenc", "accBytes", "fromHex", "hexdec":
+	case "accBytes":
+		argn(1)
+		return VStr{AccBytes(c.bytesArg(e.Args[0]))}
+	case "validBech32":
+		argn(1)
+		return VBool{ValidBech32(c.bytesArg(e.Args[0]))}
+	case "lower", "keccak", "hexenc", "fromHex", "hexdec":
 		argn(1)
 		return VStr{App(e.Name, SBytes, c.bytesArg(e.Args[0]))}
-	case "validBech32", "validDenom", "validHex":
+	case "validDenom", "validHex":
 		argn(1)
 		return VBool{App(e.Name, SBool, c.bytesArg(e.Args[0]))}
 	case "foldEq":
@@ -892,6 +909,18 @@ func (c *EvalCtx) call(e *Expr) Value {
 		t = Cat(t, amt)
 		t = Cat(t, fixN(c.bytesArg(e.Args[4]), 32))
 		return VStr{t}
+	case "stAttestersOf":
+		// attester list of the given state reference (st or old(st))
+		argn(1)
+		cc, ok := c.eval(e.Args[0]).(CComp)
+		if !ok || cc.Prefix != "" {
+			fail("stAttestersOf needs st or old(st)")
+		}
+		st := c.state()
+		if cc.Old {
+			st = c.pre
+		}
+		return VList{ElemT: c.ex.attesterType(), Len: st.abs["nAtt"], Cols: map[string]*Term{"Attester": st.abs["attList"]}}
 	case "stAttesters":
 		// the enabled-attester list of the state, in store order (what GetAllAttesters returns)
 		argn(0)
@@ -908,6 +937,14 @@ func (c *EvalCtx) call(e *Expr) Value {
 			fail("validAtt: attester list expected")
 		}
 		return VBool{App("validAtt", SBool, c.bytesArg(e.Args[0]), c.bytesArg(e.Args[1]), l.Cols["Attester"], l.Len, c.asBV(c.eval(e.Args[3]), 32))}
+	case "depFails":
+		// outcome of the k-th dependency call (bank / fiat-token-factory) made by this function: a free boolean input
+		argn(1)
+		n, ok := c.eval(e.Args[0]).(CNum)
+		if !ok {
+			fail("depFails needs a literal index")
+		}
+		return VBool{Var(fmt.Sprintf("depFail!%d", c.pre.callN+int(n.N.Int64())), SBool)}
 	case "inited":
 		argn(0)
 		var conj []*Term
